@@ -55,6 +55,14 @@ def _gen_seq(b, rng, g, wg, bp):
         if rng.random() < 0.3:
             known = {f.number for f in mi.fields}
             unk = b"".join(wg.unknown_record(known) for _ in range(rng.randint(1, 2)))
+            if rng.random() < 0.4:
+                # a field the reader KNOWS arriving with a wire type that does not fit its declared type (e.g. written by
+                # a schema in which it became repeated / changed type): kept as an unknown field, counted like one
+                from .c17 import _fits, _payload_for
+                cands = [(f, wt) for f in mi.fields for wt in (0, 1, 2, 5) if f.label != "map" and not _fits(f, wt)]
+                if cands:
+                    f, wt = rng.choice(cands)
+                    unk += _payload_for(wt, f.number, rng)
         seq.append((mi, tree, unk))
     return seq
 
@@ -78,6 +86,14 @@ def _write(b, bp, seq):
         m = bp.make(mi, tree, "inplace" if (idx + len(seq)) % 2 else "ctor")
         if unk:
             m = b.bp_class(mi.full_name)().parse(bytes(m) + unk)
+        if idx % 3 == 2:
+            # a REUSED message object: measured and written once (to a scratch stream), grown through its containers /
+            # descendants only, then written to the real stream -- the prefix must describe what is written now
+            scratch = io.BytesIO()
+            len(m)
+            m.dump(scratch, betterproto.SIZE_DELIMITED)
+            from ..values import grow_in_place
+            grow_in_place(b, m, mi)
         d = bytes(m)
         m.dump(s, betterproto.SIZE_DELIMITED)
         datas.append(d)
